@@ -135,6 +135,7 @@ type Config struct {
 
 // Exec is one symbolic execution of a harness instance.
 type Exec struct {
+	enum *Solver // solver used to enumerate the feasible values of a Fork argument
 	// NGo counts executed go statements (a run with goroutines is schedule-dependent natively)
 	NGo      int
 	started  time.Time
